@@ -348,7 +348,7 @@ def main(tier: str, seed: int) -> int:
     sets = ACTOR_SETS if not quick else ACTOR_SETS
     jobs = []
     for i, aset in enumerate(sets):
-        jobs.append({"tier": tier, "seed": seed * 1000 + i, "sets": [aset], "bound": 2 if quick else 3, "max_dfs": 250 if quick else 6000, "pct": 15 if quick else 600})
+        jobs.append({"tier": tier, "seed": seed * 1000 + i, "sets": [aset], "bound": 2 if quick else 3, "max_dfs": 250 if quick else 3000, "pct": 15 if quick else 300})
     _ = n
     for res in shard.pmap("checks.c26", "run_shard", jobs, timeout=400 if quick else 1700):
         chk.merge(res)
